@@ -156,7 +156,7 @@ func genProbesTCP(r *rand.Rand, stream []byte, ends []int, n int, stage string) 
 				add("replay-arbitrary-prefix", stream[:e], "1/0/1/1/1/open-1", fmt.Sprint(e))
 			}
 		default:
-			switch r.Intn(9) {
+			switch r.Intn(10) {
 			case 0: // random bytes, every length class
 				ln := []int{0, 1, 23, 24, 47, 48, 71, 72, 73, 100, 1000, 2000}[r.Intn(12)]
 				if r.Intn(2) == 0 {
@@ -193,6 +193,18 @@ func genProbesTCP(r *rand.Rand, stream []byte, ends []int, n int, stage string) 
 				add("unknown-user", wireHandshake(r, "mallory", "mallory-secret", "mallory"), silentNoKey, "")
 			case 7: // unregistered credential, hint forged for a real user
 				add("forged-hint", wireHandshake(r, "mallory", "mallory-secret", "alice"), silentNoKey, "")
+			case 9: // strict prefix of a genuine first segment the server has NEVER seen in full
+				// (an on-path attacker truncates the handshake): nothing may be created or answered
+				b := wireHandshake(r, "alice", "alice-secret", "alice")
+				cut := r.Intn(len(b))
+				if r.Intn(2) == 0 {
+					cut = len(b) - 1 - r.Intn(8) // inside the trailing padding
+				}
+				m := "0/none/0/0/0/unknown"
+				if cut >= 72 {
+					m = "1/0/0/1/0/open-1" // metadata opens, the body (payload / padding) never completes
+				}
+				add("fresh-genuine-truncated", b[:cut], m, fmt.Sprint(cut))
 			case 8: // truncated well-formed handshake under a foreign credential
 				b := wireHandshake(r, "mallory", "x", "bob")
 				add("foreign-truncated", b[:r.Intn(len(b))], "", "")
@@ -215,9 +227,9 @@ func wireHandshake(r *rand.Rand, user, pass, hintUser string) []byte {
 	r.Read(nonce)
 	copy(nonce[20:], wire.UserHint(hintUser, nonce))
 	enc := &wire.StreamEncoder{Key: key, Nonce: nonce}
-	payload := make([]byte, r.Intn(200))
+	payload := make([]byte, 1+r.Intn(200))
 	r.Read(payload)
-	pad := make([]byte, r.Intn(64))
+	pad := make([]byte, 8+r.Intn(64))
 	r.Read(pad)
 	m := wire.Meta{Proto: wire.OpenSessionRequest, Timestamp: uint32(time.Now().Unix() / 60), SessionID: 1 + r.Uint32()%1000000}
 	return enc.Seal(m, payload, nil, pad, 0)
@@ -228,9 +240,9 @@ func wireDatagram(r *rand.Rand, user, pass, hintUser string) []byte {
 	nonce := make([]byte, 24)
 	r.Read(nonce)
 	copy(nonce[20:], wire.UserHint(hintUser, nonce))
-	payload := make([]byte, r.Intn(200))
+	payload := make([]byte, 1+r.Intn(200))
 	r.Read(payload)
-	pad := make([]byte, r.Intn(64))
+	pad := make([]byte, 8+r.Intn(64))
 	r.Read(pad)
 	m := wire.Meta{Proto: wire.OpenSessionRequest, Timestamp: uint32(time.Now().Unix() / 60), SessionID: 1 + r.Uint32()%1000000}
 	return wire.SealUDP(key, nonce, m, payload, nil, pad, 0)
@@ -248,7 +260,7 @@ func genProbesUDP(r *rand.Rand, dgrams [][]byte, n int, stage string) []probe {
 			add("replay-datagram-other-source", g, "1/none/0/1/1/1/open-1", "")
 			continue
 		}
-		switch r.Intn(8) {
+		switch r.Intn(9) {
 		case 0:
 			ln := []int{0, 1, 47, 71, 72, 73, 500, 1400, 1500}[r.Intn(9)]
 			if r.Intn(2) == 0 {
@@ -288,6 +300,17 @@ func genProbesUDP(r *rand.Rand, dgrams [][]byte, n int, stage string) []probe {
 			add("forged-hint", wireDatagram(r, "mallory", "mallory-secret", "bob"), silent, "")
 		case 7:
 			add("replay-datagram-other-source", g, "1/none/0/1/1/1/open-1", "")
+		case 8: // strict prefix of a genuine first datagram the server has never seen in full
+			b := wireDatagram(r, "alice", "alice-secret", "alice")
+			cut := r.Intn(len(b))
+			if r.Intn(2) == 0 {
+				cut = len(b) - 1 - r.Intn(8) // inside the trailing padding
+			}
+			m := "0/none/none/0/0/0/unknown"
+			if cut >= 72 {
+				m = "1/none/0/0/1/0/open-1" // metadata opens under discovery, exact size checks fail
+			}
+			add("fresh-genuine-truncated", b[:cut], m, fmt.Sprint(cut))
 		}
 	}
 	return ps
